@@ -13,6 +13,25 @@ pub struct MergeDict {
 
 impl MergeDict {
     pub fn new(values: Vec<Value>) -> Self {
+        // merging merged dictionaries must not nest: lookups, iteration and drop would
+        // otherwise recurse once per merge.  The parts of a merged dictionary are spliced
+        // in where it stood which keeps the lookup order.
+        let values = if values
+            .iter()
+            .any(|value| value.downcast_object_ref::<Self>().is_some())
+        {
+            let mut flattened = Vec::with_capacity(values.len());
+            for value in values {
+                if let Some(merged) = value.downcast_object_ref::<Self>() {
+                    flattened.extend(merged.values.iter().cloned());
+                } else {
+                    flattened.push(value);
+                }
+            }
+            flattened
+        } else {
+            values
+        };
         Self {
             values: values.into_boxed_slice(),
         }
